@@ -138,6 +138,26 @@ def run(seed=0, n=300):
         got, _ = real_vjp_shape((lambda z: anp.matmul(z, B_)) if wrt == 0 else (lambda z: anp.matmul(A_, z)), A_ if wrt == 0 else B_)
         if h.matmul_body(ra, rb, [1 if ao else bd], [1 if bo else bd], m_, k_, n_, wrt) != (tuple(got) == onp.shape(A_ if wrt == 0 else B_)):
             problems.append("matmul: model and real run disagree on %r %r" % (ash, bsh))
+        # rollaxis / moveaxis forward shapes, pad round trip
+        n4 = rng.randint(1, 4)
+        xx = onp.ones(list(range(2, 2 + n4)))
+        a_, st_ = rng.randint(-n4, n4 - 1), rng.randint(-n4, n4)
+        if onp.rollaxis(xx, a_, st_).shape != NS.rollaxis(ShArr(xx.shape), a_, st_).shape:
+            problems.append("forward model of rollaxis: %r %r %r" % (xx.shape, a_, st_))
+        s_, d_ = rng.randint(-n4, n4 - 1), rng.randint(-n4, n4 - 1)
+        if onp.moveaxis(xx, s_, d_).shape != NS.moveaxis(ShArr(xx.shape), s_, d_).shape:
+            problems.append("forward model of moveaxis: %r %r %r" % (xx.shape, s_, d_))
+        got, _ = real_vjp_shape(lambda z: anp.moveaxis(z, s_, d_), xx)
+        if h.perm_body("moveaxis", n4, s_, d_) != (tuple(got) == xx.shape):
+            problems.append("moveaxis: model and real run disagree on %r %r %r" % (xx.shape, s_, d_))
+        form = rng.randint(0, 4)
+        lo, hi, lo2, hi2 = [rng.randint(0, 2) for _ in range(4)]
+        width = [lo, (lo,), (lo, hi), ((lo, hi),), tuple([(lo, hi), (lo2, hi2), (hi, lo2)][:k])][form]
+        got, ans_shape = real_vjp_shape(lambda z: anp.pad(z, width, "constant"), x)
+        if tuple(NS.pad(ShArr(sh), width).shape) != tuple(ans_shape):
+            problems.append("forward model of pad: %r %r" % (sh, width))
+        if h.pad_body(sh, form, lo, hi, lo2, hi2) != (tuple(got) == tuple(sh)):
+            problems.append("pad: model and real run disagree on %r %r" % (sh, width))
         checked += 1
     return {"samples": checked, "problems": problems[:10], "model_gaps": sorted(set(h.GAPS))[:10]}
 
